@@ -22,6 +22,7 @@ META = {
                    "evaluate() for every operator sequence",
     "assumptions": [],
 }
+META["explanation"] += " " + '(PR-consumed) a value or expression text is taken as a number only when the scanner consumed all of it: the cursor form of StringToNumber is followed by a comparison of the cursor with the end, and the cursor-less overload is not used outside Digit.hpp.'
 
 DOC_NAMES = {
     "exponent": ["Exponent"], "remainder": ["Remainder"], "multiplication": ["Multiplication"],
